@@ -48,12 +48,13 @@ def _nfkey(e: ast.AST):
 
 
 class DecisionTable:
-    def __init__(self, fn: ast.AST, atoms: dict[str, list[str]], max_atoms: int = 7, discover: bool = True) -> None:
+    def __init__(self, fn: ast.AST, atoms: dict[str, list[str]], max_atoms: int = 7, discover: bool = True, module_consts: dict | None = None) -> None:
         """`discover`: a branch condition that is none of the named atoms becomes an extra atom `?<source>` (both truth values are
         enumerated): the rule's expectation does not mention it, so the outcome must not depend on it"""
         self.fn = fn
         self.discover = discover
         self.max_atoms = max_atoms
+        self.module_consts: dict[str, ast.AST] = dict(module_consts or {})
         self.names = list(atoms)
         if len(self.names) > max_atoms:
             raise ValueError("too many atoms")
@@ -198,6 +199,11 @@ class DecisionTable:
                             and all(isinstance(t, ast.Name) for t in tg.elts):
                         for t, v in zip(tg.elts, val.elts):
                             env[t.id] = v
+                    elif isinstance(tg, (ast.Tuple, ast.List)) and all(isinstance(t, ast.Name) for t in tg.elts) \
+                            and isinstance(val, (ast.Attribute, ast.Name, ast.Subscript)):
+                        # `a, b = x.shape` : a is x.shape[0], b is x.shape[1]
+                        for i_, t in enumerate(tg.elts):
+                            env[t.id] = ast.Subscript(value=copy.deepcopy(val), slice=ast.Constant(i_), ctx=ast.Load())
                     elif isinstance(tg, (ast.Tuple, ast.List)):
                         for t in ast.walk(tg):
                             if isinstance(t, ast.Name):
@@ -227,6 +233,22 @@ class DecisionTable:
                                 env.pop(t.id, None)
                 self._walk(st.body, env, asg, effects)
                 continue
+            if isinstance(st, ast.For) and not st.orelse and not any(isinstance(n, (ast.Break, ast.Continue)) for n in ast.walk(st)):
+                items = self._const_items(self._subst(st.iter, env))
+                if items is not None:
+                    # a loop over a literal (or module-constant) sequence of constants is unrolled
+                    for it_ in items:
+                        tg = st.target
+                        if isinstance(tg, ast.Name):
+                            env[tg.id] = it_
+                        elif isinstance(tg, (ast.Tuple, ast.List)) and isinstance(it_, (ast.Tuple, ast.List)) and len(tg.elts) == len(it_.elts) \
+                                and all(isinstance(t, ast.Name) for t in tg.elts):
+                            for t, v in zip(tg.elts, it_.elts):
+                                env[t.id] = v
+                        else:
+                            raise _Unknown("loop target")
+                        self._walk(st.body, env, asg, effects)
+                    continue
             if isinstance(st, (ast.For, ast.While)):
                 effects.append(("loop", X.U(self._subst(st.iter, env)) if isinstance(st, ast.For) else X.U(st.test)))
                 for n in ast.walk(st):
@@ -244,6 +266,18 @@ class DecisionTable:
             if isinstance(st, ast.Delete):
                 continue
             raise _Unknown(f"statement kind {type(st).__name__}")
+
+    def _const_items(self, it: ast.AST):
+        "elements of a literal tuple/list of constants (or of constant tuples), possibly given by a module-level constant name"
+        if isinstance(it, ast.Name) and it.id in self.module_consts:
+            it = self.module_consts[it.id]
+        if isinstance(it, (ast.Tuple, ast.List)) and 1 <= len(it.elts) <= 8:
+            def const(e):
+                return isinstance(e, ast.Constant) or (isinstance(e, ast.UnaryOp) and isinstance(e.operand, ast.Constant)) \
+                    or (isinstance(e, (ast.Tuple, ast.List)) and all(const(x) for x in e.elts))
+            if all(const(e) for e in it.elts):
+                return list(it.elts)
+        return None
 
     def rows(self) -> list[dict]:
         for _ in range(8):
@@ -281,8 +315,8 @@ class DecisionTable:
         return out
 
 
-def table(fn: ast.AST, atoms: dict[str, list[str]]) -> list[dict]:
-    return DecisionTable(fn, atoms).rows()
+def table(fn: ast.AST, atoms: dict[str, list[str]], module_consts: dict | None = None) -> list[dict]:
+    return DecisionTable(fn, atoms, module_consts=module_consts).rows()
 
 
 def outcome_str(o: tuple) -> str:
